@@ -13,6 +13,8 @@
 #include <asl/HttpServer.h>
 #include <sys/socket.h>
 #include <sys/ioctl.h>
+#include <signal.h>
+#include <pthread.h>
 #include <atomic>
 #include <sys/time.h>
 #include <netinet/in.h>
@@ -100,6 +102,70 @@ static void set_timeouts(int fd)
 	setsockopt(fd, IPPROTO_TCP, TCP_NODELAY, &one, sizeof one);
 	setsockopt(fd, IPPROTO_TCP, TCP_QUICKACK, &one, sizeof one);
 }
+
+// ---- interval timer for the "signals reach the sending thread" cases -------------------------------------------
+// A blocking send() that is interrupted by a signal after it has transferred something returns a SHORT count (even
+// with SA_RESTART); the library's write loop has to continue with the rest.  To provoke that, a case may arm an
+// ITIMER_REAL (no-op SIGALRM handler, SA_RESTART) while the main thread sends to a peer that starts reading late.
+// Only the main (sending) thread takes the signal: every other thread of the process -- the harness's helpers and,
+// through the inherited mask, the library's accept and connection threads (whose select() loops treat EINTR as an
+// error) -- has SIGALRM blocked.  The timer is armed only inside a TimerScope and disarmed on every exit path.
+static void block_alarm_in_this_thread()
+{
+	sigset_t set;
+	sigemptyset(&set);
+	sigaddset(&set, SIGALRM);
+	pthread_sigmask(SIG_BLOCK, &set, 0);
+}
+struct AlarmBlockedScope { // threads created inside inherit the blocked mask
+	sigset_t old;
+	AlarmBlockedScope()
+	{
+		sigset_t set;
+		sigemptyset(&set);
+		sigaddset(&set, SIGALRM);
+		pthread_sigmask(SIG_BLOCK, &set, &old);
+	}
+	~AlarmBlockedScope() { pthread_sigmask(SIG_SETMASK, &old, 0); }
+};
+static volatile sig_atomic_t g_ticks = 0;
+static void on_alarm(int) { g_ticks = g_ticks + 1; }
+struct TimerScope {
+	bool armed = false;
+	int fd;
+	// fd: the sending socket; its SO_SNDTIMEO is lifted meanwhile (a socket with a send timeout fails with EINTR instead
+	// of being restarted, see signal(7) -- that would be the harness's doing, not the library's)
+	TimerScope(long usec, int fd_) : fd(fd_)
+	{
+		if (usec <= 0)
+			return;
+		struct sigaction sa;
+		memset(&sa, 0, sizeof sa);
+		sa.sa_handler = on_alarm;
+		sa.sa_flags = SA_RESTART;
+		sigemptyset(&sa.sa_mask);
+		sigaction(SIGALRM, &sa, 0);
+		timeval none = {0, 0};
+		setsockopt(fd, SOL_SOCKET, SO_SNDTIMEO, &none, sizeof none);
+		itimerval tv;
+		tv.it_interval.tv_sec = tv.it_value.tv_sec = 0;
+		tv.it_interval.tv_usec = tv.it_value.tv_usec = usec;
+		setitimer(ITIMER_REAL, &tv, 0);
+		armed = true;
+	}
+	~TimerScope()
+	{
+		if (!armed)
+			return;
+		itimerval off;
+		memset(&off, 0, sizeof off);
+		setitimer(ITIMER_REAL, &off, 0);
+		timeval tv = {HANG_S, 0};
+		setsockopt(fd, SOL_SOCKET, SO_SNDTIMEO, &tv, sizeof tv);
+	}
+};
+static long clamp_timer(long long us) { return us <= 0 ? 0 : us < 500 ? 500 : us > 50000 ? 50000 : (long)us; }
+static long clamp_delay(long long ms) { return ms <= 0 ? 0 : ms > 1000 ? 1000 : (long)ms; }
 
 // State shared by the two ends of a loopback session, so that the end that is WAITING can see that the other end is
 // stuck inside receive(): the peer entered receive() (epoch odd), has consumed every byte that was sent to it
@@ -203,6 +269,7 @@ struct Step {
 	long long len;
 	uint64_t seed;
 	int api;
+	long delay_ms = 0, timer_us = 0; // client->server only: the server starts reading late, a timer fires in the sending thread
 };
 
 struct Script {
@@ -237,6 +304,8 @@ static std::string server_script(WebSocket& ws, Script& sc)
 			do_send(ws, st.type, gen_payload(st.type, st.len, st.seed), st.api);
 			continue;
 		}
+		if (st.delay_ms > 0)
+			usleep((useconds_t)st.delay_ms * 1000); // the client fills the socket buffers and blocks in send() meanwhile
 		if (!next_msg(ws, got, sc.empties, why, &sc.watch, 1))
 			return vf::str("server, step ", i, " (len ", st.len, "): ", why);
 		std::string want = gen_payload(st.type, st.len, st.seed);
@@ -308,8 +377,11 @@ static Servers& servers()
 			exit(2);
 		}
 		s->http.link(s->linked);
-		s->direct.start(true);
-		s->http.start(true);
+		{
+			AlarmBlockedScope nosig; // accept threads (and the connection threads they create) never take SIGALRM
+			s->direct.start(true);
+			s->http.start(true);
+		}
 		s->port_direct = s->direct.port();
 		s->port_http = s->http.port();
 		if (s->port_direct <= 0 || s->port_http <= 0) {
@@ -335,7 +407,7 @@ static const long long MAX_LEN = 8ll << 20;
 // ops:  conn via            (0 WebSocketServer directly, 1 through HttpServer::link).  The first one opens the first
 //                           session; every later one (after at least one message) close()s the client WebSocket and
 //                           connect()s THE SAME OBJECT again for the following messages (object reuse).
-//       m dir type len seed api
+//       m dir type len seed api [delay_ms timer_us]     (the last two for dir 0 only, see TimerScope)
 struct Session {
 	int via = 0;
 	std::shared_ptr<Script> sc;
@@ -367,8 +439,15 @@ static std::string loop_session(WebSocket& ws, Session& se, int round, int& empt
 		for (size_t i = 0; i < sc->steps.size() && cerr_.empty(); i++) {
 			const Step& st = sc->steps[i];
 			std::string want = gen_payload(st.type, st.len, st.seed);
-			if (st.dir != 1)
+			if (st.dir != 1) {
+				int cfd = Peek::sock(ws).handle();
+				if (st.timer_us > 0) { // small fixed send buffer (no autotuning): the send really has to wait for the late reader
+					int sb = 32768;
+					setsockopt(cfd, SOL_SOCKET, SO_SNDBUF, &sb, sizeof sb);
+				}
+				TimerScope timer(st.timer_us, cfd);
 				do_send(ws, st.type, want, st.api);
+			}
 			if (st.dir != 0) {
 				if (!next_msg(ws, got, empties, why, w, 0))
 					cerr_ = vf::str("client, step ", i, " (len ", st.len, "): ", why);
@@ -426,6 +505,10 @@ static std::vector<Session> loop_sessions(const vf::Case& c)
 			st.len = clamp_len(o.i(2), MAX_LEN);
 			st.seed = (uint64_t)o.i(3);
 			st.api = (int)(o.i(4) & 0xff);
+			if (st.dir == 0) {
+				st.delay_ms = clamp_delay(o.i(5));
+				st.timer_us = clamp_timer(o.i(6));
+			}
 			ss.back().sc->steps.push_back(st);
 		}
 	}
@@ -473,6 +556,7 @@ struct Helper {
 	Helper()
 	{
 		std::thread([this] {
+			block_alarm_in_this_thread();
 			for (;;) {
 				std::function<void()> j;
 				{
@@ -792,10 +876,13 @@ static void run_in(const vf::Case& c)
 // Part B (outbound): bytes produced by send() decoded by the reference codec
 // ops:  role isclient maskseed
 //       s type len seed api         (type 0 text, 1 binary, 2 ping, 3 pong)
+//       slow delay_ms timer_us      (the reader starts delay_ms late; an interval timer of timer_us fires in the sending
+//                                    thread while it sends: the kernel completes the blocking send() calls in pieces)
 static void run_out(const vf::Case& c)
 {
 	bool isclient = false;
 	uint64_t maskseed = 1;
+	long delay_ms = 0, timer_us = 0;
 	struct Snd {
 		int type;
 		std::string pl;
@@ -806,6 +893,10 @@ static void run_out(const vf::Case& c)
 		if (o.name == "role") {
 			isclient = (o.i(0) & 1) != 0;
 			maskseed = (uint64_t)o.i(1, 1);
+		}
+		else if (o.name == "slow") {
+			delay_ms = clamp_delay(o.i(0));
+			timer_us = clamp_timer(o.i(1));
 		}
 		else if (o.name == "s") {
 			Snd s;
@@ -822,8 +913,10 @@ static void run_out(const vf::Case& c)
 	PairGuard g;
 	g.b = fds[1];
 	g.draining = true;
-	drainer().start([&wire, fd = fds[1]] {
+	drainer().start([&wire, delay_ms, fd = fds[1]] {
 		char buf[65536];
+		if (delay_ms > 0)
+			usleep((useconds_t)delay_ms * 1000); // the sender fills the socket buffer and blocks meanwhile
 		for (;;) {
 			ssize_t r = recv(fd, buf, sizeof buf, 0);
 			if (r <= 0)
@@ -834,11 +927,14 @@ static void run_out(const vf::Case& c)
 	{
 		WebSocket ws(Socket(fds[0]), isclient);
 		seed_masks(ws, maskseed);
-		for (auto& s : sends) {
-			if (s.type < 2)
-				do_send(ws, s.type, s.pl, s.api);
-			else
-				ws.send((const byte*)s.pl.data(), (int)s.pl.size(), s.type == 2 ? WebSocket::FRAME_PING : WebSocket::FRAME_PONG);
+		{
+			TimerScope timer(timer_us, fds[0]);
+			for (auto& s : sends) {
+				if (s.type < 2)
+					do_send(ws, s.type, s.pl, s.api);
+				else
+					ws.send((const byte*)s.pl.data(), (int)s.pl.size(), s.type == 2 ? WebSocket::FRAME_PING : WebSocket::FRAME_PONG);
+			}
 		}
 		ws.close();
 	}
@@ -927,10 +1023,55 @@ static void run_hs(const vf::Case& c)
 		throw;
 	}
 }
+// Connection header values of an RFC 6455 opening handshake ("MUST include the upgrade token", matched case-insensitively,
+// in a comma-separated list with optional white space).  `asserted`: RFC-valid AND accepted by the unchanged server
+// (probed); the others are RFC-valid too but the library is pickier than the RFC about them (exact "Upgrade" token,
+// exactly ", " between tokens, exact "websocket"): they are sent and their outcome is only counted.
+struct HsVariant {
+	const char* value;
+	bool asserted;
+};
+static const HsVariant HS_CONNECTION[] = {
+    {"Upgrade", true},
+    {"keep-alive, Upgrade", true},
+    {"Upgrade, keep-alive", true},
+    {"Keep-Alive, Upgrade", true},
+    {"TE, keep-alive, Upgrade", true},
+    {"keep-alive, Upgrade, TE", true},
+    {"keep-alive,Upgrade", false},
+    {"upgrade", false},
+    {"keep-alive, upgrade", false},
+    {"UPGRADE", false},
+    {"keep-alive,  Upgrade", false},
+    {"Upgrade ,keep-alive", false},
+};
+static const int N_HS_CONNECTION = sizeof HS_CONNECTION / sizeof HS_CONNECTION[0];
+static const HsVariant HS_UPGRADE[] = {{"websocket", true}, {"WebSocket", false}, {"WEBSOCKET", false}};
+static const int N_HS_UPGRADE = 3;
+static const char* HS_EXTRA[] = {"Origin: http://127.0.0.1", "Sec-WebSocket-Protocol: chat", "User-Agent: Mozilla/5.0 (X11; Linux x86_64; rv:109.0) Gecko/20100101 Firefox/115.0",
+                                 "Pragma: no-cache", "Cache-Control: no-cache", "Accept-Language: en-US,en;q=0.5", "Sec-WebSocket-Extensions: permessage-deflate"};
+static const int N_HS_EXTRA = 7;
+
+static std::string name_case(const std::string& n, int mode)
+{
+	std::string r = n;
+	for (size_t i = 0; i < r.size(); i++) {
+		unsigned char ch = (unsigned char)r[i];
+		if (mode == 1 || (mode == 3 && i % 2 == 0))
+			r[i] = (char)tolower(ch);
+		else if (mode == 2 || mode == 3)
+			r[i] = (char)toupper(ch);
+	}
+	return r;
+}
+
+// ops:  hs via namecase connvar upvar extras order | key16
+//       m len seed masked key        (echoed by the server after the handshake)
 static void run_hs_(const vf::Case& c)
 {
 	Servers& sv = servers();
-	int via = 0, namecase = 0;
+	int via = 0, namecase = 0, connvar = 0, upvar = 0;
+	long long extras = 0, order = 0;
 	std::string key;
 	struct M {
 		long long len;
@@ -942,7 +1083,11 @@ static void run_hs_(const vf::Case& c)
 	for (auto& o : c.ops) {
 		if (o.name == "hs") {
 			via = (int)(o.i(0) & 1);
-			namecase = (int)(((o.i(1) % 3) + 3) % 3);
+			namecase = (int)(((o.i(1) % 4) + 4) % 4);
+			connvar = (int)(((o.i(2) % N_HS_CONNECTION) + N_HS_CONNECTION) % N_HS_CONNECTION);
+			upvar = (int)(((o.i(3) % N_HS_UPGRADE) + N_HS_UPGRADE) % N_HS_UPGRADE);
+			extras = o.i(4) < 0 ? -o.i(4) : o.i(4);
+			order = o.i(5) < 0 ? -o.i(5) : o.i(5);
 			key = o.str(0);
 		}
 		else if (o.name == "m")
@@ -959,15 +1104,27 @@ static void run_hs_(const vf::Case& c)
 	a.sin_addr.s_addr = htonl(INADDR_LOOPBACK);
 	VF_CHECK(s.fd >= 0 && connect(s.fd, (sockaddr*)&a, sizeof a) == 0, "raw client cannot connect");
 	set_timeouts(s.fd);
-	std::string hk = "Sec-WebSocket-Key", hv = "Sec-WebSocket-Version", hu = "Upgrade", hc = "Connection";
-	if (namecase == 1)
-		hk = lower(hk), hv = lower(hv), hu = lower(hu), hc = lower(hc);
-	else if (namecase == 2)
-		for (auto* h : {&hk, &hv, &hu, &hc})
-			for (auto& ch : *h)
-				ch = (char)toupper((unsigned char)ch);
-	std::string req = "GET /chat HTTP/1.1\r\nHost: 127.0.0.1:" + std::to_string(ntohs(a.sin_port)) + "\r\n" + hu + ": websocket\r\n" + hc + ": Upgrade\r\n" + hk + ": " + key64 +
-	                  "\r\n" + hv + ": 13\r\n\r\n";
+	bool asserted = HS_CONNECTION[connvar].asserted && HS_UPGRADE[upvar].asserted;
+	if (getenv("VF_HS_ASSERT_ALL")) // development aid: list what the server under test accepts
+		asserted = true;
+	std::vector<std::string> lines;
+	lines.push_back(name_case("Host", namecase) + ": 127.0.0.1:" + std::to_string(ntohs(a.sin_port)));
+	lines.push_back(name_case("Upgrade", namecase) + ": " + HS_UPGRADE[upvar].value);
+	lines.push_back(name_case("Connection", namecase) + ": " + HS_CONNECTION[connvar].value);
+	lines.push_back(name_case("Sec-WebSocket-Key", namecase) + ": " + key64);
+	lines.push_back(name_case("Sec-WebSocket-Version", namecase) + ": 13");
+	for (int i = 0; i < N_HS_EXTRA; i++)
+		if (extras & (1 << i))
+			lines.push_back(HS_EXTRA[i]);
+	if (order) { // header fields may come in any order
+		ref::SplitMix r((uint64_t)order);
+		for (size_t i = lines.size(); i > 1; i--)
+			std::swap(lines[i - 1], lines[r.below(i)]);
+	}
+	std::string req = "GET /chat HTTP/1.1\r\n";
+	for (auto& l : lines)
+		req += l + "\r\n";
+	req += "\r\n";
 	VF_CHECK(raw_write(s.fd, req), "raw client cannot send the request");
 	std::string buf;
 	size_t he;
@@ -975,7 +1132,15 @@ static void run_hs_(const vf::Case& c)
 		VF_CHECK(raw_more(s.fd, buf), "no complete handshake response (got ", vf::show(buf), ")");
 	std::string head = buf.substr(0, he + 2);
 	buf.erase(0, he + 4);
-	VF_CHECK(head.compare(0, 12, "HTTP/1.1 101") == 0, "status line: ", vf::show(head.substr(0, head.find("\r\n"))));
+	if (!asserted && head.compare(0, 12, "HTTP/1.1 101") != 0) {
+		// RFC-valid spelling the unchanged library does not accept either: an observation, not a failure
+		vf::stats().cls(vf::str("hs.observed_refused[Connection: ", HS_CONNECTION[connvar].value, " / Upgrade: ", HS_UPGRADE[upvar].value, "]"));
+		return;
+	}
+	if (!asserted)
+		vf::stats().cls(vf::str("hs.observed_accepted[Connection: ", HS_CONNECTION[connvar].value, " / Upgrade: ", HS_UPGRADE[upvar].value, "]"));
+	VF_CHECK(head.compare(0, 12, "HTTP/1.1 101") == 0, "valid handshake refused (Connection: ", HS_CONNECTION[connvar].value, ", Upgrade: ", HS_UPGRADE[upvar].value,
+	         via ? ", through HttpServer::link" : "", "): status line ", vf::show(head.substr(0, head.find("\r\n"))), "; request was ", vf::show(req, 600));
 	std::string accept;
 	bool found = false;
 	size_t p = head.find("\r\n") + 2;
@@ -1390,6 +1555,22 @@ void vf_search(const vf::Args& a)
 			st.nt(vf::fnv(vf::serialize(c)));
 			st.cls("loop.big_cases");
 		}
+		// big client->server messages to a server that starts reading late, interval timer in the sending (main) thread
+		long nslow = a.n(1, 6);
+		uint64_t ticks0 = (uint64_t)g_ticks;
+		for (long k = 0; k < nslow; k++) {
+			vf::Case c;
+			c.add(vf::Op("conn", {(long long)((k + a.worker) & 1)}));
+			long long len = k % 2 == 0 ? (1 << 20) + 7 * a.worker : (2 << 20) - a.worker;
+			c.add(vf::Op("m", {0, 1, len, (long long)rng.below(1 << 30), (long long)rng.below(3), 100 + (long long)rng.below(151), 1000 + (long long)rng.below(2001)}));
+			c.add(vf::Op("m", {0, 0, 70000, (long long)rng.below(1 << 30), 1, 0, 1500}));
+			c.add(vf::Op("m", {1, 1, 126, (long long)rng.below(1 << 30), 0}));
+			if (!run1("loop", c))
+				return;
+			st.nt(vf::fnv(vf::serialize(c)));
+			st.cls("loop.late_server_with_timer_cases");
+		}
+		st.cls("loop.timer_ticks_while_sending", (uint64_t)g_ticks - ticks0);
 	};
 
 	// ---- A4: one client WebSocket object reused: connect, exchange, close(), connect() again (same or other server),
@@ -1550,12 +1731,55 @@ void vf_search(const vf::Args& a)
 	}();
 
 	lap("Bout2");
+	// ---- B-out 3: big messages to a reader that starts late, while an interval timer fires in the sending thread
+	[&]() {
+		static const long long BIG[] = {(1 << 20) + 3, (3 << 20) + 17, 2 << 20, 4 << 20, 70000, 300000};
+		long ncases = a.n(2, 12);
+		uint64_t ticks0 = (uint64_t)g_ticks;
+		for (long k = 0; k < ncases; k++) {
+			vf::Case c;
+			c.add(vf::Op("role", {(long long)((k + a.worker) & 1), (long long)rng.below(1 << 30)}));
+			c.add(vf::Op("slow", {100 + (long long)rng.below(201), 1000 + (long long)rng.below(2001)}));
+			c.add(vf::Op("s", {1, BIG[(k * a.workers + a.worker) % 6], (long long)rng.below(1 << 30), (long long)rng.below(3)}));
+			c.add(vf::Op("s", {0, 70000, (long long)rng.below(1 << 30), (long long)rng.below(3)}));
+			c.add(vf::Op("s", {1, BIG[(k * a.workers + a.worker + 3) % 6], (long long)rng.below(1 << 30), 0}));
+			c.add(vf::Op("s", {0, 5, (long long)rng.below(1 << 30), 1}));
+			if (!run1("out", c))
+				return;
+			st.nt(vf::fnv(vf::serialize(c)));
+			st.cls("out.late_reader_with_timer_cases");
+			if (k == 0 && a.worker == 0)
+				st.sample("out (late reader, timer): " + vf::serialize(c));
+		}
+		st.cls("out.timer_ticks_while_sending", (uint64_t)g_ticks - ticks0);
+	}();
+	lap("Bout3");
 	// ---- handshake
 	auto sec_HS = [&]() {
-		auto g = gen::map(gen::tuple(vf::irange<int>(0, 1), gen::weightedElement<int>({{4, 0}, {1, 1}, {1, 2}}), vf::bytes_n(16, 0, 255), gen_len(70000), vf::irange<int>(0, 1 << 30), gen_key()),
-		                  [](const std::tuple<int, int, std::string, int, int, long long>& t) {
+		// every Connection x Upgrade spelling x server path once (enumerated), then generated combinations
+		uint64_t idx = 0, grid = 0;
+		for (int via = 0; via < 2; via++)
+			for (int cv = 0; cv < N_HS_CONNECTION; cv++)
+				for (int uv = 0; uv < N_HS_UPGRADE; uv++, idx++) {
+					if ((int)(idx % (uint64_t)a.workers) != a.worker)
+						continue;
+					vf::Case c;
+					vf::Op o("hs", {via, (long long)(idx % 4), cv, uv, (long long)rng.below(128), (long long)rng.below(1000)});
+					o.s.push_back(rng.bytes(16));
+					c.add(o);
+					c.add(vf::Op("m", {(long long)(1 + rng.below(300)), (long long)rng.below(1 << 30), 1, (long long)(rng.next() & 0xffffffff)}));
+					if (!run1("hs", c))
+						return;
+					grid++;
+					st.nt(vf::fnv(vf::serialize(c)));
+				}
+		st.part("hs.grid(server path x 12 Connection values x 3 Upgrade values)", grid, false);
+		auto g = gen::map(gen::tuple(vf::irange<int>(0, 1), gen::weightedElement<int>({{3, 0}, {1, 1}, {1, 2}, {1, 3}}), vf::bytes_n(16, 0, 255), gen_len(70000), vf::irange<int>(0, 1 << 30), gen_key(),
+		                             gen::weightedOneOf<int>({{5, vf::irange<int>(0, 5)}, {1, vf::irange<int>(6, N_HS_CONNECTION - 1)}}), gen::weightedElement<int>({{8, 0}, {1, 1}, {1, 2}}),
+		                             gen::weightedOneOf<int>({{1, gen::just(0)}, {2, vf::irange<int>(0, 127)}}), gen::weightedOneOf<int>({{1, gen::just(0)}, {2, vf::irange<int>(1, 100000)}})),
+		                  [](const std::tuple<int, int, std::string, int, int, long long, int, int, int, int>& t) {
 			                  vf::Case c;
-			                  vf::Op o("hs", {std::get<0>(t), std::get<1>(t)});
+			                  vf::Op o("hs", {std::get<0>(t), std::get<1>(t), std::get<6>(t), std::get<7>(t), std::get<8>(t), std::get<9>(t)});
 			                  o.s.push_back(std::get<2>(t));
 			                  c.add(o);
 			                  c.add(vf::Op("m", {std::get<3>(t), std::get<4>(t), 1, std::get<5>(t)}));
@@ -1563,9 +1787,18 @@ void vf_search(const vf::Args& a)
 		                  });
 		int k = 0;
 		vf::check_cases("hs", a.n(1000, 10000), 100, g, [&](const vf::Case& c) {
+			const vf::Op& o = c.ops[0];
 			st.nt(vf::fnv(vf::serialize(c)));
-			st.cls(c.ops[0].i(0) ? "hs.via_httpserver_link" : "hs.via_websocketserver");
-			st.cls(c.ops[0].i(1) == 0 ? "hs.header_names_canonical" : c.ops[0].i(1) == 1 ? "hs.header_names_lower" : "hs.header_names_upper");
+			st.cls(o.i(0) ? "hs.via_httpserver_link" : "hs.via_websocketserver");
+			st.cls(o.i(1) == 0 ? "hs.header_names_canonical" : o.i(1) == 1 ? "hs.header_names_lower" : o.i(1) == 2 ? "hs.header_names_upper" : "hs.header_names_mixed");
+			bool asserted = HS_CONNECTION[o.i(2) % N_HS_CONNECTION].asserted && HS_UPGRADE[o.i(3) % N_HS_UPGRADE].asserted;
+			st.cls(asserted ? "hs.asserted_variant" : "hs.observed_only_variant");
+			if (asserted)
+				st.cls(o.i(2) == 0 ? "hs.connection_single_token" : (o.i(2) == 2) ? "hs.connection_upgrade_first_of_several" : "hs.connection_upgrade_after_other_tokens");
+			if (o.i(4))
+				st.cls("hs.extra_headers");
+			if (o.i(5))
+				st.cls("hs.header_order_permuted");
 			if (++k == 3)
 				st.sample("hs: " + vf::serialize(c));
 		});
